@@ -1,13 +1,59 @@
 /-
-Driver ops of the "Copy" family. `run` returns `none` for op names it does not own.
+Driver ops of the deepcopy / clone family (C05).
+  op <id> deepcopy <T> <src> <dstPrior>   → model=<dst after, canonical>;eq=<b>;alias=<b>;src=1
+  op <id> clone <T> <src>                 → same for the returned value
 -/
 import GoderiveModel.U.Wire
+import GoderiveModel.U.Canon
+import GoderiveModel.S.DeepCopy
+import GoderiveModel.Spec.StructEq
 import Driver.State
 
 open Goderive
 
 namespace OpsCopy
 
-def run (_s : DState) (_name : String) (_args : List SExp) : Option String := none
+/-- identities that occupy memory: (kind, addr) of pointer targets, backing arrays, maps -/
+def memObjs : Val → List (Nat × Nat)
+  | .ptr a v => (if zeroSize v then [] else [(0, a)]) ++ memObjs v
+  | .slice a sp es => (if es.slen + sp == 0 then [] else [(1, a)]) ++ memObjs es
+  | .arr es => memObjs es
+  | .struct fs => memObjs fs
+  | .map a es => (2, a) :: memObjs es
+  | .pair k v => memObjs k ++ memObjs v
+  | .scons h t => memObjs h ++ memObjs t
+  | _ => []
+
+def maxAddr (v : Val) : Nat := (addrs v).foldl max 0
+
+def b01 (b : Bool) : String := if b then "1" else "0"
+
+def answer (env : Env) (T : Ty) (src : Val) (r : Res (Val × Nat)) : String :=
+  match r with
+  | .panic => "model=panic"
+  | .ok (d, _) =>
+    let strs := canonAll [src, d]
+    let ds := strs.getD 1 "?"
+    let so := memObjs src
+    let alias := (memObjs d).any fun o => so.contains o
+    s!"model={ds};eq={b01 (Spec.structEq env T src d)};alias={b01 alias};src=1"
+
+def run (s : DState) (name : String) (args : List SExp) : Option String :=
+  let env := s.env
+  match name, args with
+  | "deepcopy", [t, x, y] | "deepcopyx", [t, x, y] =>
+    some <| match lookupTy s t, parseVal x, parseVal y with
+    | some T, some src, some dst =>
+      if !(hasType env T src && hasType env T dst) then "ill-typed"
+      else if !heapConsistent (objs src ++ objs dst) then "ill-formed-heap"
+      else answer env T src (DeepCopy.top env T src dst (max (maxAddr src) (maxAddr dst) + 1))
+    | _, _, _ => "bad-op"
+  | "clone", [t, x] =>
+    some <| match lookupTy s t, parseVal x with
+    | some T, some src =>
+      if !(hasType env T src) then "ill-typed"
+      else answer env T src (DeepCopy.clone env T src (maxAddr src + 1))
+    | _, _ => "bad-op"
+  | _, _ => none
 
 end OpsCopy
